@@ -39,7 +39,7 @@ def _twin(tag: str) -> str | None:
     return None
 
 DYN = ["non_dynamic", "bw", "bw", "bw_ff", "bw_analytic", "bw_swave", "bw_ffonly", "bw_edw", "probeA", "probeB", "probeX",
-       "non_dynamic_ff"]
+       "probeS", "non_dynamic_ff"]
 ALIGN = ["none", "axis", "dpd1", "dpd2", "dpd3"]
 
 
@@ -48,14 +48,16 @@ def _final_ids(tag: str) -> list[int]:
 
 
 def gen_config_op(rng, slot: int, tag: str, dyn=None, sel_range: int = 64) -> dict:
-    kind = rng.choices(["align", "scalar", "stable", "helcoup", "naming", "assign", "permutate", "register"],
-                       weights=[5, 3, 4, 2, 2, 5, 1, 1])[0]
+    kind = rng.choices(["align", "scalar", "stable", "helcoup", "naming", "assign", "permutate", "register", "align_inplace"],
+                       weights=[5, 3, 4, 2, 2, 5, 1, 1, 1 if tag.endswith("+r") else 0])[0]
     op = {"op": kind, "b": slot}
     if kind == "align":
         if tag.endswith("+r"):
             op["v"] = rng.choices(ALIGN, weights=[2, 1, 3, 3, 3])[0]
         else:
             op["v"] = rng.choices(ALIGN, weights=[3, 4, 1, 0, 0])[0]
+    elif kind == "align_inplace":
+        op["v"] = rng.choice([1, 2, 3])
     elif kind in ("scalar", "helcoup"):
         op["v"] = rng.random() < 0.6
     elif kind == "stable":
@@ -91,7 +93,8 @@ def gen_formulate(rng, slot: int, fault_mode: bool) -> dict:
         if r < 0.12:
             op["fault"] = {"kind": "probe_raise", "k": rng.choice([1, 1, 2, 3, 5, 8])}
         elif r < 0.22:
-            op["fault"] = {"kind": "interrupt", "line": int(10 ** rng.uniform(0, 4.4))}
+            line = int(10 ** rng.uniform(0, 4.4)) if rng.random() < 0.5 else rng.randrange(1, 22000)
+            op["fault"] = {"kind": "interrupt", "line": line}
     return op
 
 
@@ -159,6 +162,8 @@ def generate(seed_: int, run: int, reactions: list[str], wild_hash_seeds: bool =
                     ops.append({"op": "assign", "b": slot, "dyn": rng.choice(["probeA", "probeB"]),
                                 "sel": {"kind": "name", "i": rng.randrange(sel_range), "n": 0}})
                 ops.append(op)
+                if op.get("fault") and rng.random() < 0.7:
+                    ops.append(gen_formulate(rng, slot, False))  # what does the builder do right after the fault?
             elif fault_mode:
                 ops.append({"op": "evict", "cache": rng.randrange(64)})
             else:
